@@ -196,6 +196,10 @@ for _pid in ("C01", "C02", "C07"):
          "quick": {"shards": 2, "checks": 1000, "timeout_s": 300},
          "thorough": {"shards": 8, "checks": 10000, "timeout_s": 1200}})
 CHECKS["C04"]["stages"].append(
+    {"name": "two-transports", "pkg": "srvworld", "run": "^TestC04Transports$",
+     "quick": {"shards": 2, "checks": 1500, "timeout_s": 300},
+     "thorough": {"shards": 8, "checks": 10000, "timeout_s": 1500}})
+CHECKS["C04"]["stages"].append(
     {"name": "allocation-key", "pkg": "pure", "run": "^TestC04Fingerprint$",
      "quick": {"shards": 2, "checks": 2000, "timeout_s": 300},
      "thorough": {"shards": 8, "checks": 20000, "timeout_s": 1200}})
